@@ -90,18 +90,12 @@ func c03(c *Ctx) {
 		}
 	}
 	// one time.Now() in the validator, and every time comparison in it is one of the two window tests
-	nows := callsNamed(V, "time.Now")
-	r.Check(len(nows) == 1, "R-C03.2", vname+" single clock reading", p.Pos(V.Pos()), "one time.Now() value", fmt.Sprintf("%d time.Now() calls: the two window tests may use different instants", len(nows)))
-	nrel := 0
-	for _, b := range V.Blocks {
-		for _, in := range b.Instrs {
-			if cc, ok := in.(*ssa.Call); ok {
-				if _, ok := core.TimeRelOf(cc); ok {
-					nrel++
-				}
-			}
-		}
+	var nows []*ssa.Call
+	for _, f := range core.DeepFuncs(V, core.MaxSummaryDepth) {
+		nows = append(nows, callsNamed(f, "time.Now")...)
 	}
+	r.Check(len(nows) == 1, "R-C03.2", vname+" single clock reading", p.Pos(V.Pos()), "one time.Now() value", fmt.Sprintf("%d time.Now() calls: the two window tests may use different instants", len(nows)))
+	nrel := countTimeRels(V)
 	r.Check(nrel == 2, "R-C03.2", vname+" number of time comparisons", p.Pos(V.Pos()), "exactly the two window comparisons", fmt.Sprintf("%d time comparisons in the validator; only the two window tests are expected (an extra or missing rejection)", nrel))
 
 	// validator has no effects
